@@ -399,7 +399,9 @@ fn cross_plan(property: &str) -> Vec<(&'static str, u64, u64)> {
         "C01" => vec![("C01", 6, 4)],
         "C02" => vec![("C02", 10, 4)],
         "C08" => vec![("C08", 8, 2)],
+        "C09" => vec![("C09r", 20, 2), ("C09p", 6, 2)],
         "C11" => vec![("C11", 16, 2)],
+        "C14" => vec![("C14r", 20, 2), ("C14w", 16, 2), ("C14u", 30, 1)],
         "C13" => vec![("C13", 40, 3), ("C13t", 6, 1)],
         "C16" => vec![("C16", 60, 4), ("C16t", 10, 1)],
         _ => vec![],
